@@ -4,18 +4,36 @@ package fasthttp
 
 const c02Evil = "GET /evil HTTP/1.1\r\nHost: a\r\n\r\n"
 
+// c02Final drops interim (1xx) responses.
+func c02Final(rs []vsResp) []vsResp {
+	var out []vsResp
+	for _, r := range rs {
+		if r.status >= 200 {
+			out = append(out, r)
+		}
+	}
+	return out
+}
+
 // vhC02UnreadBody: a POST whose body spells a complete request, followed by a
 // second request; the handler reads none / part / all of the body, with and
 // without StreamRequestBody, fixed-length or chunked, optionally behind
-// "Expect: 100-continue" that the ContinueHandler accepts or rejects.
+// "Expect: 100-continue" that a ContinueHandler or an ExpectHandler accepts
+// or rejects; head, body and the next request arrive in one, two or three
+// segments; ReduceMemoryUsage on/off. Observed: the handler invocations and
+// the responses on the wire (a response that answers neither /first nor
+// /second means body bytes were parsed as a request).
 func vhC02UnreadBody() {
 	chunked := vBool("chunked")
-	expect := vChoose("expect", 3) // 0: none, 1: accepted, 2: rejected
+	// 0: none, 1: accepted (no callback), 2: ContinueHandler rejects,
+	// 3: ContinueHandler accepts, 4: ExpectHandler rejects, 5: ExpectHandler accepts
+	expect := vChoose("expect", 6)
+	rejected := expect == 2 || expect == 4
 	head := "POST /first HTTP/1.1\r\nHost: a\r\n"
 	if expect > 0 {
 		head += "Expect: 100-continue\r\n"
 	}
-	var first string
+	var body string
 	big := vParam("big", 0) == 1 && !chunked && vBool("big")
 	if big {
 		// body longer than the 8 KiB prefetch: padding, then the request-shaped bytes
@@ -23,34 +41,44 @@ func vhC02UnreadBody() {
 		for i := range pad {
 			pad[i] = 'x'
 		}
-		first = head + "Content-Length: 9031\r\n\r\n" + string(pad) + c02Evil
+		head += "Content-Length: 9031\r\n\r\n"
+		body = string(pad) + c02Evil
 	} else if chunked {
-		first = head + "Transfer-Encoding: chunked\r\n\r\n1f\r\n" + c02Evil + "\r\n0\r\n\r\n"
+		head += "Transfer-Encoding: chunked\r\n\r\n"
+		body = "1f\r\n" + c02Evil + "\r\n0\r\n\r\n"
 	} else {
-		first = head + "Content-Length: 31\r\n\r\n" + c02Evil
+		head += "Content-Length: 31\r\n\r\n"
+		body = c02Evil
 	}
 	second := "GET /second HTTP/1.1\r\nHost: a\r\nConnection: close\r\n\r\n"
 	c := &vsSegConn{}
-	if vBool("oneSegment") {
-		c.segs = [][]byte{[]byte(first + second)}
-	} else {
-		c.segs = [][]byte{[]byte(first), []byte(second)}
+	switch vChoose("segments", 3) {
+	case 0:
+		c.segs = [][]byte{[]byte(head + body + second)}
+	case 1:
+		c.segs = [][]byte{[]byte(head + body), []byte(second)}
+	case 2:
+		c.segs = [][]byte{[]byte(head), []byte(body), []byte(second)}
 	}
 	s := &Server{NoDefaultDate: true, NoDefaultServerHeader: true}
 	s.StreamRequestBody = vBool("stream")
-	if expect == 2 {
-		s.ContinueHandler = func(h *RequestHeader) bool { return false }
+	s.ReduceMemoryUsage = vBool("reduceMemory")
+	switch expect {
+	case 2, 3:
+		s.ContinueHandler = func(h *RequestHeader) bool { return expect == 3 }
+	case 4, 5:
+		s.ExpectHandler = func(ctx *RequestCtx) int {
+			if expect == 5 {
+				return StatusContinue
+			}
+			return StatusExpectationFailed
+		}
 	}
 	readMode := vChoose("read", 3) // 0: none, 1: 5 bytes, 2: all
-	if vKnown("C02-streamed-body-left-unread") {
-		// listed finding: with StreamRequestBody a fixed-length body longer
-		// than the prefetch that the handler does not read to the end is left
-		// on the connection and parsed as the next request.
-		vAssume(!(big && s.StreamRequestBody && readMode != 2))
-	}
 	var uris []string
 	s.Handler = func(ctx *RequestCtx) {
 		uris = append(uris, string(ctx.Path()))
+		ctx.Response.Header.Set("X-Tag", string(ctx.Path()))
 		if string(ctx.Path()) == "/first" && s.StreamRequestBody {
 			if bs := ctx.RequestBodyStream(); bs != nil {
 				switch readMode {
@@ -73,7 +101,7 @@ func vhC02UnreadBody() {
 	ok := true
 	for i, u := range uris {
 		want := "/second"
-		if i == 0 && expect != 2 {
+		if i == 0 && !rejected {
 			want = "/first"
 		}
 		if u != want || i > 1 {
@@ -82,4 +110,69 @@ func vhC02UnreadBody() {
 	}
 	vAssert("body-bytes-never-dispatched", ok)
 	vAssert("connection-closed-at-end", c.closed == 1)
+	// the wire: one response per real request, nothing else
+	rs, parsed := vsParseResponses(c.wrote)
+	fin := c02Final(rs)
+	vNote(string(c.wrote))
+	wire := parsed && len(fin) >= 1 && len(fin) <= 2
+	if wire {
+		if rejected {
+			wire = fin[0].status == StatusExpectationFailed && fin[0].tag == ""
+		} else {
+			wire = fin[0].status == 200 && fin[0].tag == "/first"
+		}
+		if len(fin) == 2 && !(fin[1].status == 200 && fin[1].tag == "/second" && fin[1].close && !fin[0].close) {
+			wire = false
+		}
+	}
+	vAssert("only-real-requests-are-answered", wire)
+}
+
+// vhC02StreamAcrossConns: with StreamRequestBody, connection A uploads a
+// chunked body that breaks off inside a chunk (the handler reads what there
+// is); connection B, served afterwards by the same Server (pooled stream and
+// context objects), sends a well-formed chunked body whose payload spells a
+// request. B's handler must read exactly the payload and only /b and /after
+// are dispatched.
+func vhC02StreamAcrossConns() {
+	s := &Server{NoDefaultDate: true, NoDefaultServerHeader: true, StreamRequestBody: true}
+	s.ReduceMemoryUsage = vBool("reduceMemory")
+	var uris []string
+	var bodies []string
+	s.Handler = func(ctx *RequestCtx) {
+		uris = append(uris, string(ctx.Path()))
+		var got []byte
+		if bs := ctx.RequestBodyStream(); bs != nil {
+			var buf [16]byte
+			for {
+				n, err := bs.Read(buf[:])
+				got = append(got, buf[:n]...)
+				if err != nil {
+					break
+				}
+			}
+		}
+		bodies = append(bodies, string(got))
+		ctx.SetBodyString("ok")
+	}
+	// connection A: the announced chunk is longer than what arrives
+	announced := [...]string{"40", "1f", "a"}[vChoose("announced", 3)]
+	sent := vLen("sent", 0, 4)
+	a := &vsSegConn{segs: [][]byte{[]byte("POST /a HTTP/1.1\r\nHost: a\r\nTransfer-Encoding: chunked\r\n\r\n" + announced + "\r\n" + "wxyz"[:sent])}}
+	s.ServeConn(a)
+	nA := len(uris)
+	// connection B
+	payload := c02Evil
+	b := &vsSegConn{}
+	first := "POST /b HTTP/1.1\r\nHost: a\r\nTransfer-Encoding: chunked\r\n\r\n1f\r\n" + payload + "\r\n0\r\n\r\n"
+	after := "GET /after HTTP/1.1\r\nHost: a\r\nConnection: close\r\n\r\n"
+	if vBool("oneSegment") {
+		b.segs = [][]byte{[]byte(first + after)}
+	} else {
+		b.segs = [][]byte{[]byte(first), []byte(after)}
+	}
+	s.ServeConn(b)
+	got := uris[nA:]
+	vAssert("second-connection-dispatches-its-own-requests", len(got) == 2 && got[0] == "/b" && got[1] == "/after")
+	vAssert("second-connection-body-is-its-own", len(got) < 1 || bodies[nA] == payload)
 }
